@@ -113,6 +113,24 @@ impl Report {
 	}
 }
 
+/// Breadcrumb for failures `guarded` cannot catch (stack overflow, abort, kill on timeout): a harness
+/// calls `crumb(replay_text)` BEFORE handing an input to the implementation; the text is kept in
+/// `<outdir>/current_input.txt` and removed by `Report::write`.  When the harness process dies, `check`
+/// reports the violation with that text as the failing input.
+pub fn crumb(replay: &str) {
+	use std::sync::{Mutex, OnceLock};
+	static F: OnceLock<Mutex<Option<std::fs::File>>> = OnceLock::new();
+	let m = F.get_or_init(|| Mutex::new(std::env::var_os("FBH_CRUMB").and_then(|p| std::fs::File::create(p).ok())));
+	if let Ok(mut g) = m.lock() {
+		if let Some(f) = g.as_mut() {
+			use std::io::{Seek, SeekFrom};
+			let _ = f.set_len(0);
+			let _ = f.seek(SeekFrom::Start(0));
+			let _ = f.write_all(replay.as_bytes());
+		}
+	}
+}
+
 /// run a closure, turning a panic into Err(message)
 pub fn guarded<T>(f: impl FnOnce() -> T + std::panic::UnwindSafe) -> Result<T, String> {
 	std::panic::catch_unwind(f).map_err(|e| {
